@@ -1,8 +1,28 @@
-import Model.BTree
+import Proofs.BTreeTree
+import Proofs.BTreeCursor5
 import Generated.C19
 /-!
 # C19 — the copy-on-write B-tree is a correct sorted map with isolated clones
-(theorems of record; being filled in)
+
+Theorems of record about `Model.BTree` (the executable model of `dns/btree.py`, tied to the code by the
+correspondence check `harness/props/C19.py`, which compares the full tree shape after every operation).
+
+* Spec: a strictly sorted association list (`Sorted`, `lookup`, `insSorted`, `delKey`), keys and value
+  ids in `Nat`.
+* `flat n` is `visit_in_order`; `Wf t n` = all leaves at one depth, every internal node has one more child
+  than elements, every non-root node holds between `t-1` and `2t-1` elements, the root at most `2t-1`, and
+  `flat n` is strictly sorted.  `RootOk n` = an internal root holds at least one element.
+* `TreeWf tr` adds the handle: `3 ≤ t` and `size = number of elements`.
+
+Layers: L1 (`get`, order, length), L2 (`insert_element`, every `t ≥ 3`), L3 (`_delete`, every `t ≥ 3`),
+L4 (in-order optimisation) are proved.  L3 exposes a defect of the code as shipped (an internal root is
+left without elements when a deletion of an absent key merges its two children; see
+`delete_asShipped_*`); the full statement is proved for the intended root collapse
+(`Tree.collapseAlways = true`), a guarded statement and the counterexamples for the shipped one.  The
+harness probes which variant the working tree implements and demands correspondence with that variant.
+L5 (cursors): a cursor position is a split `done ++ rest` of the in-order listing (`CurInv`, a zipper over the
+parents stack); `next` / `prev` / `seek` / `seek_first` / `seek_last` and unparking after arbitrary mutations
+are proved to be navigation in that listing.
 -/
 namespace C19
 open Model.BTree
@@ -12,5 +32,310 @@ open Model.BTree
 theorem consts_agree :
     (∀ r ∈ ConstsC19.minMax, r.2.1 = minKeys r.1 ∧ r.2.2 = maxKeys r.1) ∧ ConstsC19.minT = 3 := by
   decide
+
+/-! ## L1 — lookup, order, length -/
+
+/-- "lookup … agree[s] with a reference sorted dictionary": `get_element` on a well-formed tree is lookup in
+the in-order listing. -/
+theorem get_refines {t : Nat} {n : Node} (k : Nat) (h : Wf t n) : get (height n) n k = lookup (flat n) k := by
+  obtain ⟨hh, hs⟩ := h.shape
+  rw [height_of_shape hs]
+  exact get_refines_aux t k hh n hs h.sorted
+
+/-- "in-order iteration … agree[s]": the in-order listing of a well-formed tree is strictly increasing in the
+keys (and, by `insert_refines` / `delete_refines`, it is exactly the reference list after every operation). -/
+theorem inorder_sorted {t : Nat} {n : Node} (h : Wf t n) : (flat n).Pairwise (fun a b => a.1 < b.1) := h.sorted
+
+/-- "length … agree[s]": `len()` is the number of elements of the in-order listing, initially and after
+every insertion and deletion (either variant of the root collapse). -/
+theorem len_exact {tr : Tree} (hw : TreeWf tr) (hm : tr.immutable = false) (e : Elt) (k : Nat) :
+    tr.size = tr.items.length ∧
+    (tr.insert e).1.size = (tr.insert e).1.items.length ∧
+    ((tr.delete k none).2 ≠ .indexError → (tr.delete k none).1.size = (tr.delete k none).1.items.length) := by
+  refine ⟨hw.size_ok, (tree_insert_spec e hw hm).1.size_ok, ?_⟩
+  intro hne
+  have ht2 : 2 ≤ tr.t := by have := hw.t_ok; omega
+  rcases deleteRoot_weak ht2 tr.collapseAlways k hw.wf with ⟨h1, _⟩ | ⟨h1, h2, h3, _⟩
+  · exfalso; apply hne
+    simp only [Tree.delete, hm, Bool.false_eq_true, if_false]
+    rcases hdr : deleteRoot tr.collapseAlways tr.t tr.root k none with ⟨r, res⟩
+    rw [hdr] at h1
+    simp only [] at h1
+    subst h1
+    rfl
+  · exact (tree_delete_of_root k hw hm ⟨h1, h2, h3⟩).1.size_ok
+
+/-! ## L2 / L4 — insertion -/
+
+/-- "For every sequence of insertions, replacements …": `insert_element` on a well-formed mutable tree, for
+every branching factor `t ≥ 3` and with the in-order optimisation on or off, yields a well-formed tree whose
+in-order listing is the sorted insertion (a replacement when the key exists), returns the replaced element,
+keeps the root condition, and keeps `size` exact. -/
+theorem insert_refines {tr : Tree} (e : Elt) (hw : TreeWf tr) (hm : tr.immutable = false) :
+    TreeWf (tr.insert e).1 ∧ (tr.insert e).1.items = insSorted e tr.items ∧
+    (tr.insert e).2 = .ok (lookup tr.items e.1) ∧ (RootOk tr.root → RootOk (tr.insert e).1.root) :=
+  let h := tree_insert_spec e hw hm
+  ⟨h.1, h.2.1, h.2.2.1, h.2.2.2.1⟩
+
+/-- the same at node level (`insert_nonfull` below a grown root), as in DESIGN Appendix A -/
+theorem insert_refines_node {t : Nat} (ht : 3 ≤ t) (io : Bool) (e : Elt) {n : Node} (h : Wf t n) :
+    Wf t (insertRoot t io n e).1 ∧ flat (insertRoot t io n e).1 = insSorted e (flat n) ∧
+    (insertRoot t io n e).2 = lookup (flat n) e.1 :=
+  insertRoot_spec (by omega) io e h
+
+/-- L4, "in-order optimisation on and off": the optimisation changes the shape only — the listing and the
+returned element do not depend on it, and both results are well-formed. -/
+theorem in_order_opt_refines {t : Nat} (ht : 3 ≤ t) (e : Elt) {n : Node} (h : Wf t n) :
+    flat (insertRoot t true n e).1 = flat (insertRoot t false n e).1 ∧
+    (insertRoot t true n e).2 = (insertRoot t false n e).2 ∧
+    Wf t (insertRoot t true n e).1 ∧ Wf t (insertRoot t false n e).1 := by
+  obtain ⟨a1, a2, a3⟩ := insertRoot_spec (t := t) (by omega) true e h
+  obtain ⟨b1, b2, b3⟩ := insertRoot_spec (t := t) (by omega) false e h
+  exact ⟨by rw [a2, b2], by rw [a3, b3], a1, b1⟩
+
+/-! ## L3 — deletion -/
+
+/-- "… and deletions": with the intended root collapse (an emptied root is collapsed whenever `delete`
+returns), `delete_key` on a well-formed mutable tree, for every `t ≥ 3` and every key (present or absent),
+through every rebalancing case (steal left, steal right, merge, successor replacement, root collapse), yields a
+well-formed tree whose listing is the reference list without the key, and returns the removed element. -/
+theorem delete_refines {tr : Tree} (k : Nat) (hw : TreeWf tr) (hr : RootOk tr.root) (hm : tr.immutable = false)
+    (hv : tr.collapseAlways = true) :
+    TreeWf (tr.delete k none).1 ∧ RootOk (tr.delete k none).1.root ∧
+    (tr.delete k none).1.items = delKey k tr.items ∧ (tr.delete k none).2 = .ok (lookup tr.items k) := by
+  have ht2 : 2 ≤ tr.t := by have := hw.t_ok; omega
+  have hd := deleteRoot_intended ht2 k hw.wf hr
+  rw [← hv] at hd
+  obtain ⟨d1, d2, d3, d4⟩ := hd
+  obtain ⟨a, b, c, d⟩ := tree_delete_of_root k hw hm ⟨d1, d3, d4⟩
+  exact ⟨a, by rw [d]; exact d2, b, c⟩
+
+/-
+Full statement for the code as shipped (it does NOT hold — see the two counterexamples below):
+
+theorem delete_refines_asShipped {tr : Tree} (k : Nat) (hw : TreeWf tr) (hr : RootOk tr.root)
+    (hm : tr.immutable = false) (hv : tr.collapseAlways = false) :
+    TreeWf (tr.delete k none).1 ∧ RootOk (tr.delete k none).1.root ∧
+    (tr.delete k none).1.items = delKey k tr.items ∧ (tr.delete k none).2 = .ok (lookup tr.items k)
+-/
+
+/-- The shipped `_delete` (root collapsed only when an element was deleted): the full statement holds outside
+the trigger class "the key is absent and the root is an internal node holding exactly one element". -/
+theorem delete_refines_partial {tr : Tree} (k : Nat) (hw : TreeWf tr) (hr : RootOk tr.root)
+    (hm : tr.immutable = false) (hv : tr.collapseAlways = false)
+    (guard : (lookup tr.items k).isSome ∨ tr.root.elts.length ≠ 1 ∨ tr.root.isLeaf = true) :
+    TreeWf (tr.delete k none).1 ∧ RootOk (tr.delete k none).1.root ∧
+    (tr.delete k none).1.items = delKey k tr.items ∧ (tr.delete k none).2 = .ok (lookup tr.items k) := by
+  have ht2 : 2 ≤ tr.t := by have := hw.t_ok; omega
+  have hd := deleteRoot_asShipped_partial ht2 k hw.wf hr guard
+  rw [← hv] at hd
+  obtain ⟨d1, d2, d3, d4⟩ := hd
+  obtain ⟨a, b, c, d⟩ := tree_delete_of_root k hw hm ⟨d1, d3, d4⟩
+  exact ⟨a, by rw [d]; exact d2, b, c⟩
+
+/-- What the shipped code does on *every* well-formed tree (root condition or not, either variant): a deletion
+either refines the reference and keeps the tree well-formed, or — exactly when the root is an internal node
+without elements over a single minimal child — raises `IndexError` and leaves the tree unchanged.  Occupancy
+bounds, uniform leaf depth and order therefore hold after every operation of every history; only totality
+fails. -/
+theorem delete_refines_or_indexError {tr : Tree} (k : Nat) (hw : TreeWf tr) (hm : tr.immutable = false) :
+    ((tr.delete k none).2 = .indexError ∧ (tr.delete k none).1 = tr ∧
+        ∃ c, tr.root = .node [] [c] ∧ c.elts.length = minKeys tr.t) ∨
+    (TreeWf (tr.delete k none).1 ∧ (tr.delete k none).1.items = delKey k tr.items ∧
+      (tr.delete k none).2 = .ok (lookup tr.items k)) := by
+  have ht2 : 2 ≤ tr.t := by have := hw.t_ok; omega
+  rcases deleteRoot_weak ht2 tr.collapseAlways k hw.wf with ⟨h1, h2, h3⟩ | ⟨h1, h2, h3, _⟩
+  · left
+    simp only [Tree.delete, hm, Bool.false_eq_true, if_false]
+    rcases hdr : deleteRoot tr.collapseAlways tr.t tr.root k none with ⟨r, res⟩
+    rw [hdr] at h1 h2
+    simp only [] at h1 h2
+    subst h1 h2
+    refine ⟨rfl, ?_, h3⟩
+    cases tr
+    simp_all
+  · right
+    obtain ⟨a, b, c, _⟩ := tree_delete_of_root k hw hm ⟨h1, h2, h3⟩
+    exact ⟨a, b, c⟩
+
+/-- a root with one element over two minimal leaves (t = 3) -/
+def witnessRoot : Node := .node [(4, 0)] [.leaf [(0, 0), (2, 0)], .leaf [(6, 0), (8, 0)]]
+
+/-- an internal root without elements over a single minimal child (t = 3), as left behind by deletions of
+absent keys -/
+def witnessStuck : Node :=
+  .node [] [.node [(10, 0), (22, 0)]
+    [.leaf [(0, 0), (2, 0), (4, 0), (6, 0), (8, 0)], .leaf [(12, 0), (14, 0), (16, 0), (18, 0), (20, 0)],
+     .leaf [(24, 0), (26, 0), (28, 0), (30, 0), (32, 0)]]]
+
+theorem witnessRoot_wf : Wf 3 witnessRoot ∧ RootOk witnessRoot := by
+  refine ⟨⟨⟨1, ?_⟩, by decide, by decide⟩, Or.inr (by decide)⟩
+  simp [witnessRoot, Shape, Occ, minKeys, maxKeys, Node.elts]
+
+theorem witnessStuck_wf : Wf 3 witnessStuck := by
+  refine ⟨⟨2, ?_⟩, by decide, by decide⟩
+  simp [witnessStuck, Shape, Occ, minKeys, maxKeys, Node.elts]
+
+/-- Counterexample 1 (code as shipped): deleting the absent key 1 from a well-formed tree whose root holds one
+element over two minimal children leaves an internal root without elements — the root condition is lost
+(nothing observable is wrong yet). -/
+theorem delete_asShipped_loses_rootOk :
+    Wf 3 witnessRoot ∧ RootOk witnessRoot ∧ lookup (flat witnessRoot) 1 = none ∧
+    shapeCode (deleteRoot false 3 witnessRoot 1 none).1 =
+      [(false, [], 1), (true, [(0, 0), (2, 0), (4, 0), (6, 0), (8, 0)], 0)] ∧
+    ¬ RootOk (deleteRoot false 3 witnessRoot 1 none).1 := by
+  refine ⟨witnessRoot_wf.1, witnessRoot_wf.2, by decide, by decide, ?_⟩
+  have h1 : (deleteRoot false 3 witnessRoot 1 none).1.isLeaf = false := by decide
+  have h2 : (deleteRoot false 3 witnessRoot 1 none).1.elts.length = 0 := by decide
+  intro h
+  rcases h with h | h
+  · rw [h1] at h; cases h
+  · omega
+
+/-- Counterexample 2 (either variant, reachable only with the shipped one): in the state that further deletions
+of absent keys produce, every deletion raises `IndexError`. -/
+theorem delete_asShipped_indexError (k : Nat) :
+    Wf 3 witnessStuck ∧ (deleteRoot false 3 witnessStuck k none).2 = .indexError := by
+  refine ⟨witnessStuck_wf, ?_⟩
+  -- this is the failing configuration of `deleteRoot_weak`: the other alternative would return `.ok _`
+  rcases deleteRoot_weak (t := 3) (by omega) false k witnessStuck_wf with ⟨h, _⟩ | ⟨_, _, h3, _⟩
+  · exact h
+  · exfalso
+    have hd : (deleteRoot false 3 witnessStuck k none).2 = .indexError := by
+      simp [deleteRoot, witnessStuck, height, heightL, delete, Node.elts, searchInNode_nil,
+        delPrep_single_minimal (t := 3) (c := .node [(10, 0), (22, 0)]
+          [.leaf [(0, 0), (2, 0), (4, 0), (6, 0), (8, 0)], .leaf [(12, 0), (14, 0), (16, 0), (18, 0), (20, 0)],
+           .leaf [(24, 0), (26, 0), (28, 0), (30, 0), (32, 0)]]) k (by simp [Node.elts, minKeys])]
+    rw [hd] at h3
+    cases h3
+
+/-! ## frozen trees and clones -/
+
+/-- "a frozen tree rejects every mutation": `insert_element`, `delete_key` and `delete_exact` on an immutable tree
+raise `Immutable` and leave the tree as it is. -/
+theorem frozen_rejects {tr : Tree} (h : tr.immutable = true) (e : Elt) (k : Nat) (x : Option Elt) :
+    tr.insert e = (tr, .immutableErr) ∧ tr.delete k x = (tr, .immutableErr) ∧
+    (tr.makeImmutable).immutable = true :=
+  ⟨frozen_insert e h, frozen_delete k x h, rfl⟩
+
+/-- "A copy-on-write clone …": a clone can only be taken from a frozen tree, is mutable, and starts with the
+same contents; in the model nodes are persistent values, so no later operation on the clone can be observed
+through the original (isolation of the *code* is established by the correspondence histories, which re-read
+the original and every clone after each mutation). -/
+theorem clone_isolated {o : Tree} (io : Bool) :
+    (o.immutable = false → o.clone io = none) ∧
+    (∀ c, o.clone io = some c → c.items = o.items ∧ c.size = o.size ∧ c.t = o.t ∧ c.root = o.root ∧
+      c.immutable = false ∧ (TreeWf o → TreeWf c)) := by
+  refine ⟨fun h => by simp [Tree.clone, h], ?_⟩
+  intro c hc
+  unfold Tree.clone at hc
+  split at hc
+  · simp only [Option.some.injEq] at hc
+    subst hc
+    exact ⟨rfl, rfl, rfl, rfl, rfl, fun hw => ⟨hw.t_ok, hw.wf, hw.size_ok⟩⟩
+  · simp at hc
+
+/-! ## non-vacuity -/
+
+/-- the hypotheses of the theorems above are met by a non-trivial tree: a two-level tree with t = 3 -/
+example : TreeWf ⟨3, witnessRoot, 5, false, true, true⟩ ∧ RootOk witnessRoot :=
+  ⟨⟨by decide, witnessRoot_wf.1, by decide⟩, witnessRoot_wf.2⟩
+
+/-- and the operations really change it: inserting key 5 and deleting key 4 (successor replacement + merge +
+root collapse) on that tree -/
+example : flat (insertRoot 3 true witnessRoot (5, 9)).1 = [(0, 0), (2, 0), (4, 0), (5, 9), (6, 0), (8, 0)] := by
+  decide
+example : shapeCode (deleteRoot true 3 witnessRoot 4 none).1 = [(true, [(0, 0), (2, 0), (6, 0), (8, 0)], 0)] := by
+  decide
+example : get (height witnessRoot) witnessRoot 6 = some (6, 0) := by decide
+example : (Tree.empty 3 false).immutable = false ∧ TreeWf (Tree.empty 3 false) :=
+  ⟨rfl, (empty_treeWf (by decide) false false).1⟩
+
+/-! ## L5 — cursors
+
+`CurInv t root c done rest`: the (unparked) cursor `c` rests in the tree `root` at the position that splits the
+in-order listing into `done ++ rest`.  `SplitAt k before done rest`: that position is the lower bound
+(`before`) / upper bound (`not before`) of key `k`.
+-/
+
+/-- "cursor seek/next/prev … agree with a reference sorted dictionary": a fresh cursor and `seek_first` rest on the
+left boundary, `seek_last` on the right boundary, of whatever tree they are used with. -/
+theorem cursor_boundaries (t : Nat) (root : Node) (c : Cursor) :
+    CurInv t root ({} : Cursor) [] (flat root) ∧ CurInv t root c.seekFirst [] (flat root) ∧
+    CurInv t root c.seekLast (flat root) [] ∧ c.seekFirst.parked = false ∧ c.seekLast.parked = false ∧
+    c.seekFirst.pkey = none ∧ c.seekLast.pkey = none :=
+  ⟨(boundary_inv t root {} rfl rfl rfl).1 rfl, (boundary_inv t root c.seekFirst rfl rfl rfl).1 rfl,
+   (boundary_inv t root c.seekLast rfl rfl rfl).2 rfl, rfl, rfl, rfl, rfl⟩
+
+/-- `seek(key, before)` on a well-formed tree rests at the lower bound (`before`) or upper bound (`not before`)
+of the key in the in-order listing, and records the anchor (key, not yet returned, hint = `before`). -/
+theorem cursor_seek_refines {tr : Tree} (hw : TreeWf tr) (key : Nat) (before : Bool) :
+    ∃ D R, CurInv tr.t tr.root (Cursor.seek tr.root key before) D R ∧ D ++ R = tr.items ∧
+      SplitAt key before D R ∧ (Cursor.seek tr.root key before).parked = false ∧
+      (Cursor.seek tr.root key before).pkey = some key ∧ (Cursor.seek tr.root key before).pread = false ∧
+      (Cursor.seek tr.root key before).increasing = before := by
+  obtain ⟨D, R, h1, h2, h3⟩ := seek_spec hw.wf key before
+  exact ⟨D, R, h1, curInv_split h1, h2, h3⟩
+
+/-- `next()` of an unparked cursor returns the element after the position (`None` at the end) and moves past
+it; the anchor it leaves is that element's key, returned, increasing. -/
+theorem cursor_next_refines {tr : Tree} (hw : TreeWf tr) (c : Cursor) (D R : List Elt) (hp : c.parked = false)
+    (hinv : CurInv tr.t tr.root c D R) :
+    D ++ R = tr.items ∧ (c.next tr.root).2 = R.head? ∧
+    CurInv tr.t tr.root (c.next tr.root).1 (D ++ R.head?.toList) R.tail ∧ (c.next tr.root).1.parked = false ∧
+    (∀ e, (c.next tr.root).2 = some e → (c.next tr.root).1.pkey = some e.1 ∧ (c.next tr.root).1.pread = true ∧
+      (c.next tr.root).1.increasing = true) ∧
+    ((c.next tr.root).2 = none → (c.next tr.root).1.pkey = none) := by
+  obtain ⟨Hr, hr⟩ := hw.wf.shape
+  obtain ⟨h1, h2, h3⟩ := next_spec hr c D R hp hinv
+  exact ⟨curInv_split hinv, h1, h2, h3, (next_anchor c tr.root).1, (next_anchor c tr.root).2⟩
+
+/-- `prev()` of an unparked cursor returns the element before the position (`None` at the start) and moves
+before it; the anchor it leaves is that element's key, returned, decreasing. -/
+theorem cursor_prev_refines {tr : Tree} (hw : TreeWf tr) (c : Cursor) (D R : List Elt) (hp : c.parked = false)
+    (hinv : CurInv tr.t tr.root c D R) :
+    D ++ R = tr.items ∧ (c.prev tr.root).2 = D.getLast? ∧
+    CurInv tr.t tr.root (c.prev tr.root).1 D.dropLast (D.getLast?.toList ++ R) ∧ (c.prev tr.root).1.parked = false ∧
+    (∀ e, (c.prev tr.root).2 = some e → (c.prev tr.root).1.pkey = some e.1 ∧ (c.prev tr.root).1.pread = true ∧
+      (c.prev tr.root).1.increasing = false) ∧
+    ((c.prev tr.root).2 = none → (c.prev tr.root).1.pkey = none) := by
+  obtain ⟨Hr, hr⟩ := hw.wf.shape
+  obtain ⟨h1, h2, h3⟩ := prev_spec hr c D R hp hinv
+  exact ⟨curInv_split hinv, h1, h2, h3, (prev_anchor c tr.root).1, (prev_anchor c tr.root).2⟩
+
+/-- "including cursors kept open across mutations": a parked cursor with a parking key `K`, used on the tree
+*as it is now* (any well-formed tree, whatever mutations happened while the cursor was parked), resumes at the
+bound of `K` — just after `K` if `K` was returned by `next()`, just before it if it was returned by `prev()`, as
+sought if it was not returned yet — and `next()` / `prev()` continue from there.  A parked cursor without a
+parking key rests on a boundary and stays there. -/
+theorem cursor_unpark_refines {tr : Tree} (hw : TreeWf tr) (c : Cursor) (K : Nat) (hp : c.parked = true)
+    (hk : c.pkey = some K) :
+    ∃ D R, D ++ R = tr.items ∧ SplitAt K (unparkBefore c) D R ∧
+      (c.next tr.root).2 = R.head? ∧ CurInv tr.t tr.root (c.next tr.root).1 (D ++ R.head?.toList) R.tail ∧
+      (c.prev tr.root).2 = D.getLast? ∧
+      CurInv tr.t tr.root (c.prev tr.root).1 D.dropLast (D.getLast?.toList ++ R) ∧
+      (c.next tr.root).1.parked = false ∧ (c.prev tr.root).1.parked = false := by
+  obtain ⟨Hr, hr⟩ := hw.wf.shape
+  obtain ⟨D, R, hinv, hsplit, hunp⟩ := maybeUnpark_key hw.wf c K hp hk
+  have hinv1 : CurInv tr.t tr.root { c.maybeUnpark tr.root with pkey := none } D R :=
+    curInv_congr rfl rfl rfl rfl rfl hinv
+  obtain ⟨n1, n2, n3⟩ := nextBody_spec hr _ D R hinv1
+  obtain ⟨p1, p2, p3⟩ := prevBody_spec hr _ D R hinv1
+  rw [← next_eq_body] at n1 n2 n3
+  rw [← prev_eq_body] at p1 p2 p3
+  exact ⟨D, R, curInv_split hinv, hsplit, n1, n2, p1, p2, by rw [n3]; exact hunp, by rw [p3]; exact hunp⟩
+
+/-- parking without a mutation is the identity: the position that an anchor denotes in a sorted listing is
+unique, so re-seeking it on an unchanged tree returns to the same split. -/
+theorem cursor_bound_unique {key : Nat} {b : Bool} {D R D' R' : List Elt}
+    (hs : (D ++ R).Pairwise (fun a b => a.1 < b.1)) (heq : D ++ R = D' ++ R') (h : SplitAt key b D R)
+    (h' : SplitAt key b D' R') : D = D' ∧ R = R' :=
+  splitAt_unique hs heq h h'
+
+/-- non-vacuity: a cursor sought to key 4 in the two-level witness tree; `next()` returns (4, 0), then (6, 0);
+after deleting key 6 from the tree (cursor parked with anchor "after 4"), `next()` returns (8, 0). -/
+example : ((Cursor.seek witnessRoot 4 true).next witnessRoot).2 = some (4, 0) := by decide
+example : ((((Cursor.seek witnessRoot 4 true).next witnessRoot).1.park).next
+    (deleteRoot true 3 witnessRoot 6 none).1).2 = some (8, 0) := by decide
 
 end C19
